@@ -39,6 +39,12 @@ pub struct Params {
     pub data_pct: u32,
     pub group_pct: u32,
     pub mutrefs_pct: u32,
+    /// collections over the library's own `Vec<&lock>` / `Box<[&lock]>` impls
+    pub slice_pct: u32,
+    /// per acquisition: use the guard / data in ways other than dereferencing it
+    pub misuse_pct: u32,
+    /// per scoped acquisition: the closure hands its data back to the caller
+    pub escape_pct: u32,
 }
 
 /// deeper bounds for the thorough tier (set once from the command line)
@@ -92,6 +98,9 @@ impl Params {
             data_pct: 30,
             group_pct: 30,
             mutrefs_pct: 12,
+            slice_pct: 10,
+            misuse_pct: 6,
+            escape_pct: 0,
         }
     }
 }
@@ -288,6 +297,19 @@ impl<'p> Gen<'p> {
             let cont = self.pick_cont(ms.len());
             w.targets.push(TSpec::MutRefs { kind, cont, members: ms });
         }
+        if !free.is_empty() && self.rng.chance(self.p.slice_pct, 100) {
+            let mut ms: Vec<usize> = Vec::new();
+            for _ in 0..self.rng.range(1, 4) {
+                ms.push(*self.rng.pick(&free));
+            }
+            if self.rng.chance(5, 6) {
+                ms.sort();
+                ms.dedup();
+                self.rng.shuffle(&mut ms);
+            }
+            let (kind, boxed, poison) = *self.rng.pick(&[(CollKind::Boxed, false, false), (CollKind::Boxed, true, false), (CollKind::Retry, false, false), (CollKind::Ref, true, false), (CollKind::Boxed, false, true), (CollKind::Retry, true, true)]);
+            w.targets.push(TSpec::Slice { kind, boxed, members: ms, poison });
+        }
         let nt = self.r(self.p.targets);
         let base_idx = w.targets.len();
         for i in 0..nt {
@@ -325,6 +347,23 @@ impl<'p> Gen<'p> {
                     ops.push(BodyOp::Write(i));
                 }
             }
+        }
+        if self.rng.chance(self.p.misuse_pct, 100) {
+            let slice = matches!(w.targets[t], TSpec::Slice { .. });
+            let op = if slice && !api.is_scoped() && self.rng.chance(2, 3) {
+                Some(BodyOp::StealHolds)
+            } else if api.is_read() && nflat > 0 {
+                Some(BodyOp::AbuseShared(self.rng.below(nflat)))
+            } else {
+                None
+            };
+            if let Some(op) = op {
+                let pos = self.rng.range(0, ops.len());
+                ops.insert(pos, op);
+            }
+        }
+        if api.is_scoped() && nflat > 0 && self.rng.chance(self.p.escape_pct, 1000) {
+            ops.push(BodyOp::EscapeData(self.rng.below(nflat)));
         }
         if self.p.panic_pct > 0 && self.rng.chance(self.p.panic_pct, 100) {
             let pos = self.rng.range(0, ops.len());
@@ -439,6 +478,12 @@ pub fn generate(profile: &str, seed: u64) -> Scenario {
                 p.threads = (1, 1);
                 p.acqs = (3, 8);
             }
+            gen_general(profile, seed, &p)
+        }
+        "C02" => {
+            // now and then a scoped closure returns the data it was given
+            let mut p = Params::base();
+            p.escape_pct = 8;
             gen_general(profile, seed, &p)
         }
         _ => gen_general(profile, seed, &Params::base()),
